@@ -680,6 +680,10 @@ pub fn c18(tier: Tier, report: &mut Report) {
                 if out != text {
                     changed += 1;
                 }
+                // the JS-facing entry point is the same function
+                if idx >= total && idx < total + seeds.len() as u64 && harper_wasm::to_title_case(text.clone()) != out && viols.len() < 8 {
+                    viols.push(Violation { sig: "js-entry-point-differs".into(), case: json!({"engine":"E1","text": text}), detail: json!({"core": out}) });
+                }
                 outcomes.insert(h64(&(out != text, out.chars().filter(|c| c.is_uppercase()).count().min(6))));
             }
         }
